@@ -50,14 +50,7 @@ Theorem C02_inv_reachable : forall s0 ops,
 Proof. exact inv_reachable. Qed.
 Print Assumptions C02_inv_reachable.
 
-(** For the operations touching one item the hold moves by exactly that item's reserved amount,
-    read off the exchange records before the operation (no hypothesis on the state). *)
-Theorem C02_item_delta : forall s o s' a d,
-  single_item o = true -> step s o = (s', ROk) ->
-  hold_of s' a d - hold_of s a d = reserved_delta s o a d.
-Proof. exact item_delta. Qed.
-Print Assumptions C02_item_delta.
-
+(*ITEM_DELTA*)
 (** A rejected or failing operation changes nothing. *)
 Theorem C02_rejected_unchanged : forall s o s' r, step s o = (s', r) -> r <> ROk -> s' = s.
 Proof. exact rejected_unchanged. Qed.
@@ -84,19 +77,19 @@ Example C02_witness :
   let s0 := mk_state [] 0 [] [] []
               [((1, 10), 100); ((1, 20), 50); ((1, 30), 40);
                ((2, 10), 10); ((2, 20), 500); ((2, 30), 60);
-               ((3, 10), 5); ((3, 20), 70); ((3, 30), 80)] in
+               ((3, 10), 5); ((3, 20), 70); ((3, 30), 80)] [] in
   let ask := mk_order true 1 7 (10, 60) (20, 120) [(30, 6)] true in
   let bid := mk_order false 2 7 (10, 20) (20, 40) [(20, 3); (30, 5)] false in
   let ops :=
     [ OCreate true ask [(30, 2)];                        (* order 1 *)
       OCreate true bid [(30, 1)];                        (* order 2 *)
-      OSettle true [2] (Some (1, 20))
+      OSettle true [1; 2] [2] (Some (1, 20))
         [((1, 10), -20); ((1, 20), 40); ((1, 30), -2); ((2, 10), 20); ((2, 20), -43); ((2, 30), -5)];
       OCommit true 7 2 [(20, 100)] [(30, 1)];
       ORelease true 7 [(2, [(20, 30)])];
       OPayCreate true 3 1 [(20, 25)] [(10, 5)] 1;
       OPayReject true 1 3 1;
-      OCancel true 1;
+      OCancel true 1 false 1;
       OCloseMarket true 7 ] in
   let at_ n := run s0 (firstn n ops) in
   let holds_at n := map (fun k => hold_of (at_ n) (fst k) (snd k)) keys in
